@@ -81,6 +81,8 @@ type LinOpts struct {
 	MinNodes int
 	// NeedJump keeps only programs containing a break or continue.
 	NeedJump bool
+	// Filter, if set, keeps only the programs it accepts.
+	Filter func(toks []LinTok) bool
 }
 
 type linEnv struct {
@@ -117,10 +119,85 @@ func EnumLinear(opts LinOpts, yield func(toks []LinTok) bool) {
 				return
 			}
 		}
+		if opts.Filter != nil && !opts.Filter(g.buf) {
+			return
+		}
 		if !g.stop && !g.yield(g.buf) {
 			g.stop = true
 		}
 	})
+}
+
+func linInvalidates(k LinKind) bool {
+	return k == LDestroy || k == LArg || k == LArr || k == LOpt || k == LMoveVar || k == LIfLet
+}
+
+func linHasInvalidation(ss []LinStmt) bool {
+	for _, s := range ss {
+		if linInvalidates(s.K) || linHasInvalidation(s.Body) || linHasInvalidation(s.Else) {
+			return true
+		}
+	}
+	return false
+}
+
+// BranchExitVsPartial accepts programs containing an if/else (or if-let) in
+// which one branch invalidates a resource and then ends in return / break /
+// continue / panic, while the other branch contains a nested conditional or
+// loop with an invalidation inside (an invalidation on only some paths) - in
+// either order. These are the smallest programs (6 nodes) in which the merge
+// of an exiting branch with a partially invalidating branch matters.
+func BranchExitVsPartial(toks []LinTok) bool {
+	// cheap pre-check before building the tree
+	two, exit := false, false
+	for _, t := range toks {
+		switch t.K {
+		case LIfElse, LIfLet:
+			two = true
+		case LReturn, LBreak, LContinue, LPanic:
+			exit = true
+		}
+	}
+	if !two || !exit {
+		return false
+	}
+	exitsAfterInvalidation := func(b []LinStmt) bool {
+		if len(b) < 2 {
+			return false
+		}
+		switch b[len(b)-1].K {
+		case LReturn, LBreak, LContinue, LPanic:
+		default:
+			return false
+		}
+		return linHasInvalidation(b[:len(b)-1])
+	}
+	partial := func(b []LinStmt) bool {
+		for _, s := range b {
+			switch s.K {
+			case LIf, LIfElse, LWhile, LFor, LIfLet:
+				if linHasInvalidation(s.Body) || linHasInvalidation(s.Else) {
+					return true
+				}
+			}
+		}
+		return false
+	}
+	var walk func(ss []LinStmt) bool
+	walk = func(ss []LinStmt) bool {
+		for _, s := range ss {
+			if s.K == LIfElse || s.K == LIfLet {
+				if (exitsAfterInvalidation(s.Body) && partial(s.Else)) || (exitsAfterInvalidation(s.Else) && partial(s.Body)) {
+					return true
+				}
+			}
+			if walk(s.Body) || walk(s.Else) {
+				return true
+			}
+		}
+		return false
+	}
+	return walk(ParseLin(toks))
 }
 
 // stmts appends zero or more statements; cont is called once for every way of
